@@ -142,7 +142,7 @@ func c07Child(c *mon.Child) {
 	nInputs := c.N(100, 300)
 	for mi := 0; mi < nMaps; mi++ {
 		r := c.RNG("map", mi)
-		o := &lexgen.MapOpts{Backrefs: true, MaxStates: 5, Elide: true, Hostile: true, Plain: r.Chance(1, 3)}
+		o := &lexgen.MapOpts{Backrefs: true, MaxStates: 5, Elide: true, Hostile: true, Plain: r.Chance(1, 3), OddNames: true}
 		g := lexgen.GenMap(r, o)
 		def, err, panicked, _ := buildDef(g)
 		if panicked || err != nil {
